@@ -13,7 +13,7 @@ COQ_PROPS = "Props/C17.v"
 COQ_RUN = ("Searcher.SlicingRun", "run_c17")
 GEN_TARGETS = []
 N = {"quick": 3000, "thorough": 15000}
-CASE_CPU_SECONDS = 200
+CASE_CPU_SECONDS = 30
 RULE = (
     "a universe (word universe with any pack, or random table universe), a rule database (RuleDB, "
     "RuleDBForgetStrategy, RuleDBForest with/without reverse), perc, and a script of successive auto-search calls "
@@ -71,6 +71,7 @@ def _queue_class():
             super().__init__(pack)
             self.handed = 0
             self.dry_at = None
+            self.events = None      # Part A: list of ("hand" | "isv" | "exp", label[, answer])
 
         def __next__(self):
             try:
@@ -79,6 +80,8 @@ def _queue_class():
                 self.dry_at = self.handed
                 raise
             self.handed += 1
+            if self.events is not None:
+                self.events.append(("hand", p[0]))
             return p
 
     CountingQueue.__module__ = __name__
@@ -199,6 +202,22 @@ def impl(case):
         return a
 
     css.has_specification = has_spec
+    # every work packet taken from the queue must be processed (expanded, or skipped because its
+    # class is verified): an interruption may only fall BETWEEN packets
+    events = css.classqueue.events = []
+    orig_expand, orig_isv = css._expand, css.ruledb.is_verified  # pylint: disable=protected-access
+
+    def log_expand(comb_class, label, strategies, inferral):
+        events.append(("exp", label))
+        return orig_expand(comb_class, label, strategies, inferral)
+
+    def log_isv(label):
+        a = orig_isv(label)
+        events.append(("isv", label, bool(a)))
+        return a
+
+    css._expand = log_expand  # pylint: disable=protected-access
+    css.ruledb.is_verified = log_isv
     real_time = mod.time
     results, model_calls = [], []
     n_avail = 10 ** 6
@@ -239,6 +258,15 @@ def impl(case):
     finally:
         mod.time = real_time
         del css.has_specification
+        del css._expand  # pylint: disable=protected-access
+        del css.ruledb.is_verified
+        css.classqueue.events = None
+    lost = _lost_packets(events, bool(case.get("expand_verified")))
+    if lost is not None:
+        out["problems"].append(
+            "failing input: work packet %d (label %d) was taken from the queue but never processed "
+            "(an interruption fell inside a packet: the resumed search does not continue from where it stopped)" % lost
+        )
     out["out"] = results
     out["model_in"] = [n_avail, 100 // case["perc"], model_calls]
     out["final_counts"] = final_spec_counts
@@ -285,6 +313,35 @@ def impl(case):
             )
     out["total_packets_A"] = total
     return out
+
+
+def _lost_packets(events, expand_verified):
+    """(index, label) of the first packet handed out by the queue that was neither expanded nor
+    skipped because its class is verified; None when every packet was processed."""
+    npk = 0
+    i = 0
+    while i < len(events):
+        ev = events[i]
+        if ev[0] != "hand":
+            i += 1
+            continue
+        npk += 1
+        label = ev[1]
+        j = i + 1
+        processed = False
+        while j < len(events) and events[j][0] != "hand":
+            e = events[j]
+            if e[0] == "exp" and e[1] == label:
+                processed = True
+                break
+            if not expand_verified and e[0] == "isv" and e[1] == label and e[2]:
+                processed = True     # skipped: the class is verified
+                break
+            j += 1
+        if not processed:
+            return (npk, label)
+        i += 1
+    return None
 
 
 def encode_with(case, res):
